@@ -173,7 +173,9 @@ fn fuses(a: &LexClass, b: &LexClass) -> bool {
     false
 }
 
-pub const SEPS: &[&str] = &["", " ", "\n", " /* t */ ", " // t\n", "\t\r\n  "];
+/// (the last two: every other member of the lexer's whitespace set - vertical tab, form feed,
+/// next line, left-to-right / right-to-left marks, line and paragraph separators)
+pub const SEPS: &[&str] = &["", " ", "\n", " /* t */ ", " // t\n", "\t\r\n  ", "\u{000B}\u{000C}", "\u{0085}\u{200E}\u{200F}\u{2028}\u{2029}"];
 
 fn sep_text(a: &LexClass, b: &LexClass, sep: usize) -> String {
     let mut s = match sep {
@@ -288,7 +290,7 @@ impl Property for C15 {
         "C15"
     }
     fn rule(&self) -> &'static str {
-        "Lexeme classes from an independent table (42 keywords, 9 type names, 27 punctuations, 25 identifiers incl. Unicode and look-alikes of special cases, hardware qubits, integers in 4 radices with underscores and prefix case, float shapes, number+unit for the 6 units and im, bit strings, quoted strings, block/nested/line comments, pragma and annotation lines, version headers). Quick: all ordered pairs of classes x 6 separator choices (minimal legal, space, newline, block comment, line comment, mixed white space); thorough: additionally all ordered triples with two separator choices; plus random sequences up to length 30. Separators follow the property: line-terminated lexemes are followed by a line break, pairs that would fuse get at least one separator (fusion rules written from the lexical grammar). One evaluation = one rendered sequence: the non-trivia part of the LexedStr table must equal the generated lexemes (kind by name, exact text) with no lexical error. Non-trivial: >= 2 expected non-trivia entries. Distinct: hash of the rendered text."
+        "Lexeme classes from an independent table (42 keywords, 9 type names, 27 punctuations, 25 identifiers incl. Unicode and look-alikes of special cases, hardware qubits, integers in 4 radices with underscores and prefix case, float shapes, number+unit for the 6 units and im, bit strings, quoted strings, block/nested/line comments, pragma and annotation lines, version headers). Quick: all ordered pairs of classes x 8 separator choices (minimal legal, space, newline, block comment, line comment, mixed white space, vertical tab + form feed, the Unicode members of the whitespace set); thorough: additionally all ordered triples with two separator choices; plus random sequences up to length 30. Separators follow the property: line-terminated lexemes are followed by a line break, pairs that would fuse get at least one separator (fusion rules written from the lexical grammar). One evaluation = one rendered sequence: the non-trivia part of the LexedStr table must equal the generated lexemes (kind by name, exact text) with no lexical error. Non-trivial: >= 2 expected non-trivia entries. Distinct: hash of the rendered text."
     }
     fn streams(&self, tier: Tier, seed: u64) -> Vec<Stream> {
         let n = classes().len() as u64;
@@ -311,7 +313,7 @@ impl Property for C15 {
             // single lexeme with and without trailing trivia
             check_sequence(&[i], &[0], obs);
             check_sequence(&[i], &[3], obs);
-            obs.note = format!("lexeme {:?} followed by each of {n} classes under 6 separators: table equals the generated lexemes", classes()[i].text);
+            obs.note = format!("lexeme {:?} followed by each of {n} classes under 8 separators: table equals the generated lexemes", classes()[i].text);
             return;
         }
         if let Some(rest) = input.strip_prefix("trow:") {
